@@ -81,6 +81,12 @@ def main():
         if not r["ok"]:
             ok = False
             C.log(r["log"][-3000:])
+        # the release-profile replay of every check uses a --release build of the same binary
+        r = C.build_harness(b, release=True)
+        C.log("harness %s (release): %s" % (b, "ok" if r["ok"] else "FAILED"))
+        if not r["ok"]:
+            ok = False
+            C.log(r["log"][-3000:])
     for s in specs:
         if s.get("setup_extra"):
             try:
